@@ -406,3 +406,33 @@ func H_kq_user_entry_gone() {
 	verifAssert(verifOpenCount() == 0 && !verifQ.kqOpen && verifQ.badClose == 0, "nothing stays open")
 	verifReach("kq-user-entry-gone")
 }
+
+// A directory added by its own name and through a symbolic link (absolute or
+// relative target) is one watch: no second descriptor, and its entries' changes
+// are reported once, under the name added first.
+func H_kq_link_and_target() {
+	verifQReset()
+	verifAddNode("/d", nDir, "")
+	verifAddNode("/d/a", nFile, "")
+	target := [...]string{"/d", "d", "./d", "../d"}[verifChoose("target", 4)]
+	verifAddNode("/l", nSymlink, target)
+	wt, w := verifKqNew()
+	linkFirst := verifChoose("order", 2) == 1 // forked, not merged: the names are passed to filepath.Clean
+	first, second := "/d", "/l"
+	if linkFirst {
+		first, second = "/l", "/d"
+	}
+	verifAssert(wt.Add(first) == nil, "Add")
+	verifK1(w, " after Add")
+	n1 := verifOpenCount()
+	verifAssert(wt.Add(second) == nil, "Add of the same directory under its other name")
+	verifK1(w, " after adding the same directory under its other name")
+	verifAssert(verifOpenCount() == n1, "a directory added by name and through a symlink is watched once: no further descriptor")
+	verifExpect(verifCollect(wt, nil), nil, "entries that existed are never reported as Create")
+	verifRaise("/d/a", unix.NOTE_WRITE)
+	verifExpect(verifCollect(wt, nil), []verifKqExp{{first + "/a", Write}}, "a change is reported once, under the name added first")
+	verifAssert(wt.Close() == nil, "Close returns")
+	verifQuiesce()
+	verifAssert(verifOpenCount() == 0 && !verifQ.kqOpen && !verifQ.pipeROpen && !verifQ.pipeWOpen && verifQ.badClose == 0, "Close closes every descriptor, none twice")
+	verifReach("kq-link-and-target")
+}
